@@ -70,6 +70,9 @@ var orderFuncs = map[string]bool{
 	"src/core/vmexecutor.go:VMExecutor.after":                          true,
 }
 
+// fork tests per transcribed function (a multiset: where in the function they stand does not matter)
+var flagReads map[string][]string
+
 type site struct {
 	file, fn, callee string
 	used             bool
@@ -241,6 +244,7 @@ func main() {
 	}
 	var sites []site
 	order := map[string][]string{}
+	flagReads = map[string][]string{}
 	consts := map[string]string{}
 	fset := token.NewFileSet()
 	err := filepath.Walk(filepath.Join(root, "src"), func(p string, info os.FileInfo, err error) error {
@@ -324,8 +328,11 @@ func main() {
 				ast.Inspect(fd.Body, func(n ast.Node) bool {
 					switch x := n.(type) {
 					case *ast.CallExpr:
-						if orderCalls[calleeName(x)] || strings.HasPrefix(calleeName(x), "IsProposal") {
+						if orderCalls[calleeName(x)] {
 							items = append(items, item{x.Pos(), calleeName(x)})
+						}
+						if strings.HasPrefix(calleeName(x), "IsProposal") {
+							flagReads[key] = append(flagReads[key], calleeName(x))
 						}
 					case *ast.ReturnStmt:
 						items = append(items, item{x.Pos(), "return"})
@@ -406,6 +413,27 @@ func main() {
 			sep = ""
 		}
 		fmt.Fprintf(&sb, "  (%s, %s)%s\n", q(k), q(consts[k]), sep)
+	}
+	sb.WriteString("]\n\n")
+	sb.WriteString("/-- the flag inventory: the fork tests `IsProposalNNN()` inside each transcribed function, sorted -/\n")
+	sb.WriteString("def flagReads : List (String × List String) := [\n")
+	fk := make([]string, 0, len(flagReads))
+	for k := range flagReads {
+		fk = append(fk, k)
+	}
+	sort.Strings(fk)
+	for i, k := range fk {
+		sep := ","
+		if i == len(fk)-1 {
+			sep = ""
+		}
+		v := append([]string{}, flagReads[k]...)
+		sort.Strings(v)
+		var qs []string
+		for _, x := range v {
+			qs = append(qs, q(x))
+		}
+		fmt.Fprintf(&sb, "  (%s, [%s])%s\n", q(k), strings.Join(qs, ", "), sep)
 	}
 	sb.WriteString("]\n\n")
 	sb.WriteString("/-- writes to package-level state inside the files of the ledger path: assignments to, and in-place big.Int/Float\n    mutation of, package-level variables (file, function, what) -/\n")
